@@ -91,7 +91,7 @@ pub fn enc_c(ops: &[COp]) -> String {
 
 pub fn run(id: usize, rng: &mut Rng) -> String {
     let sc = gen(rng);
-    let cfg = Config { seed: rng.next(), p_timer: *rng.pick(&[0u64, 30, 200]), p_spurious: *rng.pick(&[0u64, 0, 0, 60, 300]), ..Config::default() };
+    let cfg = Config { seed: rng.next(), p_timer: *rng.pick(&[0u64, 30, 200]), p_spurious: *rng.pick(&[0u64, 0, 0, 60, 300]), p_preempt: *rng.pick(&[0u64, 0, 0, 100, 400]), ..Config::default() };
     let hist: Arc<StdMutex<Vec<Vec<String>>>> = Arc::new(StdMutex::new(sc.cons.iter().map(|_| vec![]).collect()));
     let h2 = hist.clone();
     let prods = sc.prods.clone();
@@ -188,10 +188,11 @@ pub fn run(id: usize, rng: &mut Rng) -> String {
     let h = hist.lock().unwrap();
     let labels = map_labels(&rep);
     format!(
-        "queue id={} seed={} ptimer={} prods={} cons={} | labels={} hist={} left={} blocked={} quiet={} aborted={} clock={}",
+        "queue id={} seed={} ptimer={} preempt={} prods={} cons={} | labels={} hist={} left={} blocked={} quiet={} aborted={} clock={}",
         id,
         cfg.seed,
         cfg.p_timer,
+        preempted(&rep),
         sc.prods.iter().map(|p| enc_p(p)).collect::<Vec<_>>().join("|"),
         sc.cons.iter().map(|c| enc_c(c)).collect::<Vec<_>>().join("|"),
         labels,
@@ -202,6 +203,11 @@ pub fn run(id: usize, rng: &mut Rng) -> String {
         if rep.aborted { 1 } else { 0 },
         rep.clock
     )
+}
+
+/// how often a thread was preempted while holding a mutex it had just taken
+pub fn preempted(rep: &sched::Report) -> usize {
+    rep.events.iter().filter(|e| e.what == "preempted").count()
 }
 
 /// Turns the runtime's event log into labels of the Lean LTS `Lts.Queue`:
